@@ -11,11 +11,12 @@ import (
 )
 
 // The thorough tier adds, to the quick rules:
-//  (a) the same rules on two more build configurations (no build tags; GOARCH=386), in child processes;
-//  (b) the checker self-test: every seeded mutant of the property (selftest/mutants/<id>/*.diff and the reverts of the
-//      fix commits listed in selftest/reverts.txt) must be reported, every behaviour-preserving refactor
-//      (selftest/refactors/<id>/*.diff) must stay silent. Variants are applied to scratch copies outside /repo and /verif,
-//      analysed statically, and removed.
+//
+//	(a) the same rules on two more build configurations (no build tags; GOARCH=386), in child processes;
+//	(b) the checker self-test: every seeded mutant of the property (selftest/mutants/<id>/*.diff and the reverts of the
+//	    fix commits listed in selftest/reverts.txt) must be reported, every behaviour-preserving refactor
+//	    (selftest/refactors/<id>/*.diff) must stay silent. Variants are applied to scratch copies outside /repo and /verif,
+//	    analysed statically, and removed.
 type extraResult struct {
 	Name   string `json:"name"`
 	Kind   string `json:"kind"`
@@ -99,6 +100,10 @@ func thoroughExtras(id, knownF string, noSelf bool) (results []extraResult, ok b
 			want = 0
 		}
 		res := extraResult{Name: x.name, Kind: x.kind, Expect: fmt.Sprintf("exit %d", want), Got: fmt.Sprintf("exit %d", code), OK: code == want, Out: firstLines(buf.String(), 2)}
+		if code == 3 {
+			// the edit does not apply to (or build on) the current tree: nothing to learn from it, not a checker failure
+			res.OK, res.Got = true, "skipped: does not apply to the current tree"
+		}
 		if !res.OK {
 			ok = false
 		}
